@@ -47,6 +47,7 @@ THEOREMS_DOC = {
     "C18_node_same_rule": "forall values and oracles: node_const = gateway_const",
     "C18_nonnumeric_fallback": "str() not dotted numeric and (container word | library cannot compare | older than 1.4) -> version 1.4 and 1.4 constants (gateway and node); otherwise kept as written",
     "C18_nonnumeric_fallback_unfixed_refuted": "history (finding version/container-word, fixed by b5ee08d): without the container test and with awesomeversion's verdict on 'dev' the digit-free string was kept and selected the 2.2 constants; with the test it gives 1.4",
+    "C18_alert_effect": "Gateway.alert (facts from its AST): callback invoked iff configured; with persistence on every alert marks the network changed, with or without a callback",
     "C18_generated_matches_spec": "generated CONST_VERSIONS/defaults = Spec's supported list; documented examples use documented keywords only",
 }
 
@@ -460,31 +461,123 @@ def monitor_ctor(case, obs, gw):
 
 
 def mqtt_effect(gw, given):
-    """in_prefix / out_prefix / retain as they act on the broker callbacks."""
+    """in_prefix / out_prefix / retain as they act on the broker callbacks and on received topics."""
     tr = gw.tasks.transport
     pub, sub = tr._pub_callback, tr._sub_callback
     if not (isinstance(pub, Stub) and isinstance(sub, Stub)):
         return None
     if not all(isinstance(given.get(k, ""), str) for k in ("in_prefix", "out_prefix")):
         return None
+    inp, outp = given.get("in_prefix", ""), given.get("out_prefix", "")
     pub.calls.clear()
     sub.calls.clear()
+    handed = []
     try:
         gw.init_topics()
-        tr.send("1;1;1;0;0;20\n")
+        tr.send("1;255;3;0;6;M\n")
+        pubs = list(pub.calls)
+        pub.calls.clear()
+        gw.logic = lambda data: handed.append(data)      # what recv hands to the gateway
+        before = len(gw.tasks.queue) if hasattr(gw.tasks, "queue") else 0
+        tr.recv(inp + "/1/255/3/0/6", "0", 0)
+        for func, args in list(gw.tasks.queue)[before:]:
+            handed.extend(args)
+            gw.tasks.queue.pop()
     except Exception as exc:
         return f"MQTT probe raised {type(exc).__name__}: {exc}"
     finally:
-        subs, pubs = list(sub.calls), list(pub.calls)
+        gw.__dict__.pop("logic", None)
+        subs = list(sub.calls)
         pub.calls.clear()
         sub.calls.clear()
-    if "in_prefix" in given and not (subs and all(a[0].startswith(given["in_prefix"] + "/") for a, _ in subs)):
-        return f"in_prefix={given['in_prefix']!r} not used for the subscriptions {[a[0] for a, _ in subs]}"
-    if "out_prefix" in given and not (len(pubs) == 1 and pubs[0][0][0].startswith(given["out_prefix"] + "/")):
-        return f"out_prefix={given['out_prefix']!r} not used for publishing {[a[0] for a, _ in pubs]}"
+    if not (subs and all(a[0].startswith(inp + "/") for a, _ in subs)):
+        return f"in_prefix={inp!r} not used for the subscriptions {[a[0] for a, _ in subs]}"
+    if [h.strip() for h in handed] != ["1;255;3;0;6;0"]:
+        return f"in_prefix={inp!r}: a message received on topic {inp + '/1/255/3/0/6'!r} reached the gateway as {handed}"
+    if not (len(pubs) == 1 and pubs[0][0][0] == outp + "/1/255/3/0/6" and pubs[0][0][1] == "M"):
+        return f"out_prefix={outp!r} not used for publishing {[a[:2] for a, _ in pubs]}"
     if "retain" in given and not (len(pubs) == 1 and pubs[0][0][3] is given["retain"]):
-        return f"retain={given['retain']!r} not passed to the publish callback"
+        return f"retain={given['retain']!r} not passed to the publish callback ({pubs[0][0][3]!r})"
+    if "retain" not in given and pubs[0][0][3] is not True:
+        return f"retain not given but the publish callback got retain={pubs[0][0][3]!r}"
     return None
+
+
+def effect_probe(case):
+    """event_callback / persistence / persistence_file as they ACT: the first scheduled save, a node
+    presentation, the final save, then a second gateway with the same options loads the file.
+    Returns (key, why) or None, and the observation {"called", "restored"}."""
+    import os
+    import shutil
+    import tempfile
+    from unittest import mock
+    given = {k: untok(t) for k, t in case["kws"]}
+    pf = given.get("persistence_file", "mysensors.pickle")
+    if not isinstance(pf, str) or not pf or os.path.isabs(pf) or ".." in pf:
+        return None, None
+    base = core.BUILD / "scratch" / str(os.getpid())
+    base.mkdir(parents=True, exist_ok=True)
+    d = tempfile.mkdtemp(dir=base)
+    old = os.getcwd()
+    obs = {}
+    try:
+        os.chdir(d)
+        for sub in ("dir", "d"):
+            os.mkdir(sub)
+        with mock.patch("os.fsync", lambda fd: None):
+            gw = build(case)
+            cb = given.get("event_callback")
+            if isinstance(cb, Stub):
+                cb.calls.clear()
+            pers = gw.tasks.persistence
+            if pers is not None:
+                pers.safe_load_sensors()
+                pers.save_sensors()                   # what start_persistence's first scheduled save does
+            gw.logic("1;255;0;0;17;%s\n" % gw.protocol_version)
+            if 1 not in gw.sensors:
+                return ("effect/presentation", f"a node presenting {gw.protocol_version!r} is not registered"), obs
+            if isinstance(cb, Stub):
+                obs["called"] = len(cb.calls)
+                cb.calls.clear()
+            if pers is not None:
+                pers.save_sensors()                   # the final save of stop()
+            files = sorted(os.path.join(r, f)[2:] for r, _, fs in os.walk(".") for f in fs)
+            if pers is not None:
+                gw2 = build(case)
+                gw2.tasks.persistence.safe_load_sensors()
+                obs["restored"] = 1 in gw2.sensors
+                obs["file"] = os.path.isfile(pf)
+        want = bool(given.get("persistence", False))
+        if isinstance(cb, Stub) and obs["called"] != 1:
+            return ("option-no-effect/event_callback",
+                    f"event_callback called {obs['called']} times for one node presentation"), obs
+        if want and pers is None:
+            return ("option-no-effect/persistence", "persistence requested but there is no persistence object"), obs
+        if want and not obs["restored"]:
+            return ("option-no-effect/persistence",
+                    f"persistence={given['persistence']!r}"
+                    + ("" if "event_callback" in given else " without event_callback")
+                    + f": a node presented after the first save is not restored by a second gateway (files {files})"), obs
+        if want and not obs["file"]:
+            return ("option-no-effect/persistence_file", f"persistence file {pf!r} was not written (files {files})"), obs
+        if not want and files:
+            return ("option-no-effect/persistence", f"persistence is off but files {files} were created"), obs
+        return None, obs
+    except Exception as exc:
+        return ("effect/exception", f"effect probe raised {type(exc).__name__}: {exc}"), obs
+    finally:
+        os.chdir(old)
+        shutil.rmtree(d, ignore_errors=True)
+
+
+def wants_effect_probe(ctx, case, i):
+    """quick: every presence/value vector of the four interacting options x the rest all absent or all
+    first value; thorough: every vector.  Random documented calls: one in five."""
+    if not case["documented_only"]:
+        return False
+    if case["rep"]:
+        return ctx.tier == "thorough" or case["rep"][2][4:] in ("000", "111")
+    return i % 5 == 0
 
 
 # ------------------------------------------------------------------ version cases
@@ -846,6 +939,12 @@ def run(ctx, res):
             res.violate("model/check-case", "the model's own checker rejects a documented case", bad[0],
                         kind="correspondence", found_input=False)
     xin, xout = [], []
+    n_effect = 0
+    alert_pred = {}
+    if model is not None:
+        o = model.batch(["alert %d %d 0" % (a, b) for a in (0, 1) for b in (0, 1)])
+        alert_pred = {(bool(a), bool(b)): tuple(x.split(" ")) for (a, b), x in
+                      zip([(a, b) for a in (0, 1) for b in (0, 1)], o)}
     for i, (c, mo) in enumerate(zip(cases, outs)):
         if dup_keyword(c):
             continue
@@ -857,7 +956,28 @@ def run(ctx, res):
         if c["kws"] and obs[0] == "ok":
             res.nontriv(core.case_hash([c["cls"], c["pos"], c["kws"]]))
         why = monitor_ctor(c, obs, gw)
-        if why:
+        if not why and obs[0] == "ok" and wants_effect_probe(ctx, c, i):
+            kw, eobs = effect_probe(c)
+            if eobs is not None:
+                n_effect += 1
+                res.count("effect:%s:cb=%s:persistence=%s" % (fam, "event_callback" in dict(c["kws"]),
+                                                              "restored" if eobs.get("restored") else
+                                                              ("off" if "restored" not in eobs else "LOST")))
+            if kw:
+                res.violate(kw[0], f"{CLASSES[c['cls']][0]}: {kw[1]}", c, kind="monitor")
+                why = kw[1]
+            elif eobs and alert_pred:
+                given = dict(c["kws"])
+                has_cb = "event_callback" in given and given["event_callback"] != "N"
+                pred = alert_pred[(has_cb, "restored" in eobs)]
+                got = ("1" if eobs.get("called", 0) == 1 else "0", "1" if eobs.get("restored") else "0")
+                if pred != got:
+                    res.violate("corr/alert", f"alert model (called, dirty)={pred}, implementation {got}", c,
+                                kind="correspondence", found_input=False)
+            continue_key = True
+        else:
+            continue_key = False
+        if why and not continue_key:
             key = "ctor/" + fam + "/" + (why.split("=")[0].split(" ")[0] if obs[0] == "ok" else obs[1])
             if obs[0] == "ok" and why.startswith("protocol_version=") and \
                     container_word(dict((k, untok(t)) for k, t in c["kws"]).get("protocol_version")):
@@ -876,7 +996,10 @@ def run(ctx, res):
                 xout.append(mo)
         if i in (5, 3000, 9000, 20000, n_rep + 3, n_rep + 11):
             res.sample({"case": c, "impl": obs})
-    res.extra["exhaustive_subspaces"] = {"constructor_option_vectors": n_rep}
+    res.extra["exhaustive_subspaces"] = {"constructor_option_vectors": n_rep, "effect_probes": n_effect}
+    import os
+    import shutil
+    shutil.rmtree(core.BUILD / "scratch" / str(os.getpid()), ignore_errors=True)
     # ---- documented examples
     run_examples(res)
     # ---- versions
@@ -943,6 +1066,13 @@ def replay(ctx, case):
             [repr(untok(t)) for t in c["pos"]] + ["%s=%r" % (k, untok(t)) for k, t in c["kws"]]))
         out["impl"] = obs
         out["monitor"] = monitor_ctor(c, obs, gw)
+        if not out["monitor"] and obs[0] == "ok" and c.get("documented_only"):
+            kw, eobs = effect_probe(c)
+            out["effect"] = eobs
+            out["monitor"] = kw[1] if kw else None
+            import os
+            import shutil
+            shutil.rmtree(core.BUILD / "scratch" / str(os.getpid()), ignore_errors=True)
         if ctx.model is not None:
             out["model"] = ctx.model.batch([model_ctor_line(c)])[0].split(" ")
     elif c.get("kind") == "version":
